@@ -86,7 +86,7 @@ fn split_to_seq(_t: Tier) -> Vec<Case> {
 
 fn lp_norm(_t: Tier) -> Vec<Case> {
     let mut out = Vec::new();
-    for s in [vec![4usize], vec![2, 3], vec![2, 3, 2], vec![2, 17]] {
+    for s in [vec![4usize], vec![2, 3], vec![2, 3, 2], vec![2, 17], vec![12, 100], vec![100, 12], vec![3, 1030]] {
         let r = s.len() as i64;
         for axis in -r..r {
             for p in [None, Some(1i64), Some(2)] {
